@@ -183,8 +183,8 @@ def close(a, b, tol):
 
 class C10(PropCheck):
     pid = 'C10'
-    HEADER_BASE = 'From Coq Require Import List QArith Bool.\nFrom Elfi Require Import Base.Harness Num.Gp.\nImport ListNotations.\n'
-    HEADER_GEN = 'From Coq Require Import List QArith Bool.\nFrom Elfi Require Import Base.Harness Num.Gp Num.GpGen.\nImport ListNotations.\n'
+    HEADER_BASE = 'From Coq Require Import String.\nFrom Coq Require Import List QArith Bool.\nFrom Elfi Require Import Base.Harness Num.Gp.\nImport ListNotations.\n'
+    HEADER_GEN = 'From Coq Require Import String.\nFrom Coq Require Import List QArith Bool.\nFrom Elfi Require Import Base.Harness Num.Gp Num.GpGen.\nImport ListNotations.\n'
     header = HEADER_BASE
     case_type = 'Gp.case'
     preds = (('Gp.agree', 'agree'), ('Gp.ok', 'ok'))
@@ -199,7 +199,12 @@ class C10(PropCheck):
             'predictive_gradients and posterior compared with GPy in EVERY phase) '
             'in which at least one re-entry WITHOUT new evidence really changed the hyper-parameters; every recipe also gets two '
             'posterior queries with a caller-supplied boundary threshold (0, 0.0, -0.0, negative, tiny positive incl. 5e-324, in rotation) '
-            'whose density and gradient are compared with the formula evaluated from the SUPPLIED value; distinct by (model recipe, query / steps)')
+            'whose density and gradient are compared with the formula evaluated from the SUPPLIED value; every surrogate is built from a bounds DICT keyed by '
+            'parameter name (names drawn from a pool, not in alphabetical order) whose keys are, for 2-3 parameters, mostly written in another order than '
+            'parameter_names, with intervals that are mostly pairwise disjoint or share one end point; the Coq case carries (parameter_names, dict in insertion '
+            'order, surrogate.bounds read back): the model tests against box_of names dict, the spec (ok) judges every row against the interval the dict binds '
+            'to the NAME of each coordinate; extra rows "other": inside the box obtained by handing the intervals out in another order (key order read '
+            'positionally / its inverse / random), outside the by-name box; distinct by (model recipe, query / steps)')
     trusted = ('translator harness/translate_c10.py (Python ast -> Gallina, fail-closed) and the reading "numpy element-wise op on one row/coordinate = scalar op on reals"',
                'GPy (posterior algebra, optimiser), scipy.stats.norm pdf/cdf/logcdf and numpy sqrt are oracles: their values at the occurring arguments are recorded per case and checked for mutual consistency inside Coq (Gp.oracle_ok)',
                'harness shim paramz.Param.__float__ for 1-element parameters (numpy 2 refuses float(array of shape (1,)) in _cache_RBF_kernel); numpy 1.x behaviour restored, no repo change',
@@ -253,6 +258,25 @@ class C10(PropCheck):
             lo = r.choice([0.0, -1.0, -2.5, 0.5, round(r.uniform(-3, 1), 2), float(r.randint(-4, 2))])
             w = r.choice([1.0, 2.0, 3.5, round(r.uniform(0.5, 5), 2), float(r.randint(1, 6))])
             bounds.append([lo, lo + w])
+        # the bounds are given per parameter NAME, as a dict: parameter names in an order that is neither the
+        # alphabetical one nor (for d >= 2, mostly) the order in which the keys of the dict are written
+        names = r.sample(self.NAME_POOL, d)
+        dict_order = list(range(d))
+        layout = 'as_drawn'
+        if d >= 2:
+            if r.random() < 0.75:
+                while dict_order == list(range(d)):
+                    r.shuffle(dict_order)
+            layout = r.choice(['as_drawn', 'disjoint', 'disjoint', 'touching'])
+            if layout != 'as_drawn':    # clearly different intervals per parameter: pairwise disjoint / sharing one end point
+                seq = list(range(d))
+                r.shuffle(seq)
+                cur = bounds[seq[0]][1]
+                for j in seq[1:]:
+                    w = bounds[j][1] - bounds[j][0]
+                    lo = cur + (0.0 if layout == 'touching' else r.choice([0.5, 1.0, 2.0]))
+                    bounds[j] = [lo, lo + w]
+                    cur = lo + w
         nb = r.choice([1, 2, 2, 3, 4])
         sizes = [r.randint(3, 5)] + [r.randint(1, 3) for _ in range(nb - 1)]
         centre = [r.uniform(lo, hi) for lo, hi in bounds]
@@ -266,9 +290,38 @@ class C10(PropCheck):
             batches.append(dict(X=X, Y=Y, optimize=(k == len(sizes) - 1) or r.random() < 0.4))
         if r.random() < 0.12:
             batches[-1]['optimize'] = False   # hyper-parameters left at the heuristics / carried over
-        return dict(dim=d, bounds=bounds, batches=batches, max_opt_iters=r.choice([5, 15, 30]),
+        return dict(dim=d, bounds=bounds, names=names, dict_order=dict_order, layout=layout,
+                    batches=batches, max_opt_iters=r.choice([5, 15, 30]),
                     optimizer=r.choice(['scg', 'scg', 'lbfgsb']),
                     target=dict(centre=centre, curv=curv, noise=noise, off=off))
+
+    NAME_POOL = ('theta', 'mu', 'sigma', 'a', 'b', 'c', 'x1', 'x2', 't1', 't2', 'alpha', 'beta', 'p0', 'p1', 'p2', 'k', 'Z', 'rate')
+
+    @staticmethod
+    def _names(rec):
+        return list(rec.get('names') or ['p%d' % i for i in range(rec['dim'])])
+
+    @staticmethod
+    def _dict_order(rec):
+        """key order of the bounds dict: the k-th key written is the name of parameter dict_order[k]"""
+        return list(rec.get('dict_order') or range(rec['dim']))
+
+    @classmethod
+    def _bounds_dict(cls, rec):
+        names = cls._names(rec)
+        return {names[j]: tuple(rec['bounds'][j]) for j in cls._dict_order(rec)}
+
+    def _other_orders(self, rec):
+        """assignments of the user's intervals to the coordinates OTHER than the one by name (the dict's key order
+        read positionally, its inverse, a random one)"""
+        d = rec['dim']
+        if d < 2:
+            return []
+        o = self._dict_order(rec)
+        inv = [o.index(i) for i in range(d)]
+        rnd = list(range(d))
+        self.rng.shuffle(rnd)
+        return [p for p in (o, o, inv, rnd) if p != list(range(d))]
 
     BOUNDARY_THRESHOLDS = ('int0', 'float0', 'negzero', 'neg', 'tiny')
     PHASE_OPS = ('optimize', 'lengthscale', 'variance', 'noise', 'bias', 'update_opt', 'optimize', 'update')
@@ -314,7 +367,8 @@ class C10(PropCheck):
             thr = sorted(ys)[len(ys) // 4]
         else:
             thr = self._boundary_threshold(tk, ys)
-        pts = [self._point(rec['bounds'], r.choice(['in', 'in', 'in', 'on', 'out'])) for _ in range(r.choice([2, 3, 4]))]
+        pts = [self._point(rec['bounds'], r.choice(['in', 'in', 'in', 'on', 'out'] + (['other'] if rec['dim'] > 1 else [])), self._other_orders(rec))
+               for _ in range(r.choice([2, 3, 4]))]
         pts[0] = self._point(rec['bounds'], 'in')
         pr = self._prior_spec(rec)
         for st in steps:
@@ -323,8 +377,25 @@ class C10(PropCheck):
         self.bump('phase_first_phase=' + ('heuristic_hyperparameters' if cold else 'as_fitted'))
         return dict(kind='phase', recipe=rec, steps=steps, points=pts, threshold=thr, prior=pr)
 
-    def _point(self, bounds, kind):
+    def _point(self, bounds, kind, orders=None):
         r = self.rng
+        if kind == 'other':
+            # inside the box obtained by handing the user's intervals to the coordinates in ANOTHER order, outside the
+            # box by parameter name (falls back to 'out' when there is no such point)
+            kind = 'out'
+            if orders:
+                perm = r.choice(orders)
+                cand = [j for j in range(len(bounds)) if bounds[perm[j]][0] < bounds[j][0] or bounds[perm[j]][1] > bounds[j][1]]
+                if cand:
+                    x = [r.uniform(bounds[perm[i]][0] + 0.02 * (bounds[perm[i]][1] - bounds[perm[i]][0]),
+                                   bounds[perm[i]][1] - 0.02 * (bounds[perm[i]][1] - bounds[perm[i]][0])) for i in range(len(bounds))]
+                    j = r.choice(cand)
+                    (lo, hi), (plo, phi) = bounds[j], bounds[perm[j]]
+                    pieces = ([(plo, min(phi, lo))] if plo < lo else []) + ([(max(plo, hi), phi)] if phi > hi else [])
+                    a, b = r.choice(pieces)
+                    x[j] = r.uniform(a, b)
+                    if not lo <= x[j] <= hi:
+                        return x
         x = [r.uniform(lo + 0.02 * (hi - lo), hi - 0.02 * (hi - lo)) for lo, hi in bounds]
         j = r.randrange(len(bounds))
         lo, hi = bounds[j]
@@ -338,6 +409,10 @@ class C10(PropCheck):
             x[j] = r.choice([float(np.nextafter(lo, -np.inf)), float(np.nextafter(hi, np.inf))])
         return x
 
+    @staticmethod
+    def _inside(p, bounds):
+        return all(lo <= v <= hi for v, (lo, hi) in zip(p, bounds))
+
     def _query(self, rec):
         r = self.rng
         d = rec['dim']
@@ -346,8 +421,9 @@ class C10(PropCheck):
             m = 1
         else:
             m = r.choice([1, 2, 3, 4])
-        kinds = [r.choice(['in', 'in', 'in', 'out', 'on', 'on', 'corner', 'ulp']) for _ in range(m)]
-        pts = [self._point(rec['bounds'], k) for k in kinds]
+        kinds = [r.choice(['in', 'in', 'in', 'out', 'on', 'on', 'corner', 'ulp'] + (['other', 'other'] if d > 1 else [])) for _ in range(m)]
+        orders = self._other_orders(rec)
+        pts = [self._point(rec['bounds'], k, orders) for k in kinds]
         return dict(shape=shape, points=pts, kinds=kinds)
 
     def _prior_spec(self, rec):
@@ -372,6 +448,9 @@ class C10(PropCheck):
             rec = self._recipe()
             self.bump('dim=%d' % rec['dim'])
             self.bump('updates=%d' % len(rec['batches']))
+            if rec['dim'] > 1:
+                self.bump('bounds_dict_key_order=' + ('parameter_names order' if rec['dict_order'] == list(range(rec['dim'])) else 'permuted'))
+                self.bump('intervals=' + rec['layout'])
             yield dict(kind='ev', recipe=rec)
             npts = r.choice([3, 5, 8])
             pts = [self._point(rec['bounds'], r.choice(['in', 'in', 'out', 'on'])) for _ in range(npts)]
@@ -404,6 +483,9 @@ class C10(PropCheck):
                 self.bump('threshold=' + ('minimised' if thr is None else 'given'))
                 for k in q['kinds']:
                     self.bump('row=' + k)
+                for p_ in q['points']:
+                    if self._inside(p_, rec['bounds']) != self._inside(p_, [rec['bounds'][j] for j in self._dict_order(rec)]):
+                        self.bump('rows_where_by_name_and_by_key_position_differ')
                 yield dict(kind='post', recipe=rec, query=q, prior=pr, threshold=thr)
 
     # ---- implementation driver ------------------------------------------------------------------
@@ -414,8 +496,9 @@ class C10(PropCheck):
         if not want_snaps and not fresh and key in self._gps:
             return self._gps[key], None
         d = rec['dim']
-        names = ['p%d' % i for i in range(d)]
-        gp = GPyRegression(names, bounds={n: tuple(b) for n, b in zip(names, rec['bounds'])},
+        names = self._names(rec)
+        # bounds: a dict keyed by parameter NAME, its keys written in the recipe's (mostly permuted) order
+        gp = GPyRegression(names, bounds=self._bounds_dict(rec),
                            optimizer=rec['optimizer'], max_opt_iters=rec['max_opt_iters'])
         snaps = []
         for b in rec['batches']:
@@ -484,7 +567,7 @@ class C10(PropCheck):
         from elfi.methods.posteriors import BolfiPosterior
         rec = case['recipe']
         d = rec['dim']
-        names = ['p%d' % i for i in range(d)]
+        names = self._names(rec)
         gp, _ = self._gp(rec, fresh=True)
         prior = make_prior(case['prior'], d, names)
         thr = case['threshold']
@@ -647,7 +730,7 @@ class C10(PropCheck):
             return dict(points=res, default_kernel=bool(gp._kernel_is_default))
         # ---- posterior query
         from elfi.methods.posteriors import BolfiPosterior
-        names = ['p%d' % i for i in range(d)]
+        names = self._names(rec)
         prior = make_prior(case['prior'], d, names)
         gp.is_sampling = False
         supplied = case['threshold']
@@ -700,7 +783,13 @@ class C10(PropCheck):
             gr = np.asarray(post.gradient_logpdf(x), dtype=float).reshape(-1, d)
         finally:
             del gp.predict, gp.predictive_gradients
-        out = dict(t=t, t_supplied=None if supplied is None else float(supplied), t_readback=t_read, ndim=ndim,
+        try:        # surrogate.bounds as stored by the constructor (what _within_bounds reads), coordinate by coordinate
+            impl_bounds = [[float(b_[0]), float(b_[1])] for b_ in gp.bounds]
+            if not all(math.isfinite(v) for b_ in impl_bounds for v in b_):
+                impl_bounds = None
+        except Exception:
+            impl_bounds = None
+        out = dict(t=t, t_supplied=None if supplied is None else float(supplied), t_readback=t_read, ndim=ndim, impl_bounds=impl_bounds,
                    ll=[ll[0], enc(ll[1]) if ll[0] == 'scalar' else [enc(v) for v in ll[1]]],
                    gl=[gl[0], [enc(v) for v in np.ravel(gl[1])] if gl[0] == 'scalar' else [[enc(v) for v in np.ravel(rw)] for rw in gl[1]]],
                    logpdf=[enc(v) for v in lp], grad=[[enc(v) for v in rw] for rw in gr])
@@ -1075,9 +1164,15 @@ class C10(PropCheck):
             rows.append('{| r_x := %s; r_orc := %s; r_lprior := %s; r_gprior := %s |}'
                         % (clist([cq(v) for v in r['x']]), orc, c_ext(r['lprior']), clist([cq(v) for v in r['gprior']])))
         frow = lambda rw: clist([c_optq(v) for v in rw])
-        return ('(PostCase {| pc_dim := %s; pc_ndim := %s; pc_bounds := %s; pc_t := %s;\n  pc_rows := %s;\n  pc_impl_ll := %s; pc_impl_gl := %s;\n'
+        rec = case['recipe']
+        names = self._names(rec)
+        cb = lambda b_: '(%s, %s)' % (cq(b_[0]), cq(b_[1]))
+        # the dict as the user wrote it: (key, interval) in insertion order
+        cdict = clist(['(%s, %s)' % (cstr(names[j]), cb(rec['bounds'][j])) for j in self._dict_order(rec)])
+        return ('(PostCase {| pc_dim := %s; pc_ndim := %s; pc_names := %s; pc_dict := %s; pc_impl_bounds := %s; pc_t := %s;\n  pc_rows := %s;\n  pc_impl_ll := %s; pc_impl_gl := %s;\n'
                 '  pc_impl_logpdf := %s; pc_impl_grad := %s |})'
-                % (cnat(d), cnat(out['ndim']), clist(['(%s, %s)' % (cq(lo), cq(hi)) for lo, hi in case['recipe']['bounds']]),
+                % (cnat(d), cnat(out['ndim']), clist([cstr(n) for n in names]), cdict,
+                   clist([cb(b_) for b_ in (out.get('impl_bounds') or [])]),
                    cq(out['t']), clist(rows, sep=';\n    '),
                    c_shaped(out['ll'], c_obs), c_shaped(out['gl'], frow),
                    clist([c_obs(v) for v in out['logpdf']]), clist([frow(rw) for rw in out['grad']])))
